@@ -88,16 +88,30 @@ func (e *Env) formula(x ast.Expr, pol bool) string {
 	case *ast.BinaryExpr:
 		switch n.Op {
 		case token.LAND:
-			return and(e.formula(n.X, pol), e.formula(n.Y, pol))
+			a := e.consequent(n.X, pol)
+			if a == "false" {
+				return "false"
+			}
+			return and(a, e.consequent(n.Y, pol))
 		case token.LOR:
-			return or(e.formula(n.X, pol), e.formula(n.Y, pol))
+			a := e.consequent(n.X, pol)
+			if a == "true" {
+				return "true"
+			}
+			return or(a, e.consequent(n.Y, pol))
 		}
 	case *ast.CallExpr:
 		if id, ok := n.Fun.(*ast.Ident); ok {
 			switch id.Name {
 			case "implies":
 				e.nargs(n, 2)
-				return implies(e.formula(n.Args[0], !pol), e.formula(n.Args[1], pol))
+				// lazy: when the antecedent is literally false the consequent is not
+				// evaluated (it may mention locals that do not exist on this path)
+				a := e.formula(n.Args[0], !pol)
+				if a == "false" {
+					return "true"
+				}
+				return implies(a, e.consequent(n.Args[1], pol))
 			case "iff":
 				e.nargs(n, 2)
 				// both polarities: quantifiers not allowed inside
@@ -114,6 +128,27 @@ func (e *Env) formula(x ast.Expr, pol bool) string {
 		}
 	}
 	return e.boolTerm(x)
+}
+
+// consequent evaluates the right-hand side of an implication.  A local
+// variable that does not exist on this path makes the consequent `false` in a
+// goal (the obligation then holds only if the antecedent is refuted on the
+// path) and `true` in a hypothesis; both are sound.
+func (e *Env) consequent(x ast.Expr, pol bool) (res string) {
+	defer func() {
+		if r := recover(); r != nil {
+			if ee, ok := r.(*exprError); ok && strings.HasPrefix(ee.msg, "unknown identifier") {
+				if pol {
+					res = "false"
+				} else {
+					res = "true"
+				}
+				return
+			}
+			panic(r)
+		}
+	}()
+	return e.formula(x, pol)
 }
 
 func (e *Env) nargs(n *ast.CallExpr, k int) {
@@ -711,6 +746,9 @@ func (e *Env) ghost(n *ast.CallExpr) Val {
 	e.nargs(n, 2)
 	t := e.t
 	o := e.eval(n.Args[0])
+	if o.K == VConst {
+		o = scalar(nil, "0")
+	}
 	lit, ok := n.Args[1].(*ast.BasicLit)
 	if !ok || o.K != VScalar {
 		e.fail("ghost(obj, \"field\") expects an object reference and a string literal")
